@@ -13,7 +13,7 @@ class Key:
 
 
 def get_key_from_line(line: str) -> Key:
-    reg = re.compile("([A-Z]|\_|0){3,32} ([a-fA-F]|[0-9]){64} ([a-fA-F]|[0-9])*")
+    reg = re.compile(r"([A-Z]|\_|0){3,32} ([a-fA-F]|[0-9]){64} ([a-fA-F]|[0-9])*")
     res = reg.match(line)
     if res is not None:
         return Key(line)
